@@ -32,6 +32,11 @@ var (
 	// current budget cannot cover the fee.
 	ErrNotEnoughBudget = errors.New("not enough budget")
 
+	// ErrMaxFeeRateBelowFloor is returned when the fee rate allowed by the
+	// budget is below the fee floor, which means no tx that can be relayed
+	// can be created from the inputs using this budget.
+	ErrMaxFeeRateBelowFloor = errors.New("max fee rate below fee floor")
+
 	// ErrLocktimeImmature is returned when sweeping an input whose
 	// locktime is not reached.
 	ErrLocktimeImmature = errors.New("immature input")
@@ -216,6 +221,20 @@ func (r *BumpRequest) MaxFeeRateAllowed() (chainfee.SatPerKWeight, error) {
 	// can be very high and we need to make sure it doesn't exceed the max
 	// fee rate.
 	maxFeeRateAllowed := chainfee.NewSatPerKWeight(r.Budget, size)
+
+	// The inputs are only checked to be able to pay the min relay fee for
+	// their own weights when being grouped, which doesn't mean the budget
+	// can pay it for the whole tx. If the budget fee rate is below the fee
+	// floor, any tx created from these inputs without exceeding the budget
+	// won't be relayed, so we exit early and let the inputs be retried,
+	// maybe in a different group, in the next block.
+	if maxFeeRateAllowed < chainfee.FeePerKwFloor {
+		return 0, fmt.Errorf("%w: budget=%v, txWeight=%v, budget "+
+			"feerate=%v, fee floor=%v", ErrMaxFeeRateBelowFloor,
+			r.Budget, size, maxFeeRateAllowed,
+			chainfee.FeePerKwFloor)
+	}
+
 	if maxFeeRateAllowed > r.MaxFeeRate {
 		log.Debugf("Budget feerate %v exceeds MaxFeeRate %v, use "+
 			"MaxFeeRate instead, txWeight=%v", maxFeeRateAllowed,
@@ -1107,9 +1126,12 @@ func (t *TxPublisher) handleInitialTxError(r *monitorRecord, err error) {
 	case errors.Is(err, ErrTxNoOutput):
 		result.Event = TxFailed
 
-	// When the error is due to zero fee rate delta, we'll send a TxFailed
-	// so these inputs can be retried in the next block.
-	case errors.Is(err, ErrZeroFeeRateDelta):
+	// When the error is due to zero fee rate delta, or the budget cannot
+	// pay the fee floor, we'll send a TxFailed so these inputs can be
+	// retried in the next block.
+	case errors.Is(err, ErrZeroFeeRateDelta),
+		errors.Is(err, ErrMaxFeeRateBelowFloor):
+
 		result.Event = TxFailed
 
 	// When the error is due to budget being used up, we'll send a TxFailed
